@@ -35,6 +35,7 @@ Definition model_agrees (c : case) : bool :=
   negb (o_setup_failed c)
   (* the hypotheses of the Props_C10 theorems hold of this case *)
   && wfb (k_schema c) && local (k_table c) (k_selects c) && local (k_table c) (k_omits c)
+  && raw_dom (k_schema c) (k_selects c) (k_omits c) (k_rows c)
   && Bool.eqb (o_err c) (out_err m)
   && cells_eqb (o_cells c) (out_cells m)
   && all2 pf_agrees (k_schema c) (o_parsed c).
